@@ -47,6 +47,19 @@ macro_rules! with_n {
     };
 }
 
+/// a few widths beyond any small integer type's range (an index narrowed to `u8` works up to 256)
+macro_rules! with_wide_n {
+    ($n:expr, $N:ident => $body:expr) => {
+        match $n {
+            255 => { const $N: usize = 255; $body }
+            256 => { const $N: usize = 256; $body }
+            257 => { const $N: usize = 257; $body }
+            300 => { const $N: usize = 300; $body }
+            n => panic!("harness: wide width {} is not instantiated", n),
+        }
+    };
+}
+
 pub type KV = HashMap<String, String>;
 
 pub fn parse_kv(toks: &[&str]) -> KV {
@@ -533,6 +546,17 @@ macro_rules! float_kinds {
             let c = s.config();
             format!("{} | {}", bits_list(c.low_pass.coefficients.iter()), bits_list(c.high_pass.coefficients.iter()))
         });
+        // the generic recursive smoothers / trackers at a float type, bit patterns on the protocol: infinities, signed
+        // zeros and NaN are sample values too ("returns the first sample unchanged")
+        fk_bits!([] Ema<$t>, $t, |s| s.config().inverse_width.bits());
+        fk_bits!([] Emed<$t>, $t, |s| {
+            let c = s.config();
+            format!("{} {} {}", c.pre.inverse_width.bits(), c.mid.bits(), c.post.inverse_width.bits())
+        });
+        fk_bits!([] AlphaBeta<$t>, $t, |s| {
+            let c = s.config();
+            format!("{} {}", c.alpha.bits(), c.beta.bits())
+        });
     };
 }
 float_kinds!(f64);
@@ -585,6 +609,16 @@ macro_rules! build_float_kind {
             "sg" => Some(with_w!(kv_n($kv, "W"), N => Box::new(Convolve::<$t, N>::savitzky_golay()) as Box<dyn Inst>)),
             "daub_analyze" => Some(with_order!(kv_n($kv, "O"), N => Box::new(Analyze::<$t, N>::daubechies()) as Box<dyn Inst>)),
             "daub_synth" => Some(with_order!(kv_n($kv, "O"), N => Box::new(Synthesize::<$t, N>::daubechies()) as Box<dyn Inst>)),
+            "ema" => Some(Box::new(Ema::<$t>::with_config(EmaConfig { inverse_width: <$t>::from_val(parse_val(kv_str($kv, "w"))) })) as Box<dyn Inst>),
+            "emedian" => Some(Box::new(Emed::<$t>::with_config(EmedConfig {
+                pre: EmaConfig { inverse_width: <$t>::from_val(parse_val(kv_str($kv, "pre"))) },
+                mid: <$t>::from_val(parse_val(kv_str($kv, "mid"))),
+                post: EmaConfig { inverse_width: <$t>::from_val(parse_val(kv_str($kv, "post"))) },
+            })) as Box<dyn Inst>),
+            "alphabeta" => Some(Box::new(AlphaBeta::<$t>::with_config(AbConfig {
+                alpha: <$t>::from_val(parse_val(kv_str($kv, "alpha"))),
+                beta: <$t>::from_val(parse_val(kv_str($kv, "beta"))),
+            })) as Box<dyn Inst>),
             _ => None,
         }
     };
@@ -719,6 +753,11 @@ fn out3(kv: &KV) -> [Q; 3] {
 fn build_inner(kind: &str, kv: &KV, wrap: Option<&str>) -> Box<dyn Inst> {
     let t = kv.get("T").map(|s| s.as_str()).unwrap_or("q");
     match (kind, t) {
+        ("median", "q") if kv_n(kv, "N") > 16 => with_wide_n!(kv_n(kv, "N"), N => finish_q(Median::<Q, N>::default(), wrap)),
+        ("mean", "q") if kv_n(kv, "N") > 16 => with_wide_n!(kv_n(kv, "N"), N => finish_q(Mean::<Q, N>::default(), wrap)),
+        ("max", "q") if kv_n(kv, "N") > 16 => with_wide_n!(kv_n(kv, "N"), N => finish_q(Max::<Q, N>::default(), wrap)),
+        ("min", "q") if kv_n(kv, "N") > 16 => with_wide_n!(kv_n(kv, "N"), N => finish_q(Min::<Q, N>::default(), wrap)),
+        ("delay", "q") if kv_n(kv, "N") > 16 => with_wide_n!(kv_n(kv, "N"), N => finish_q(Delay::<Q, N>::default(), wrap)),
         ("median", "q") => with_n!(kv_n(kv, "N"), N => finish_q(Median::<Q, N>::default(), wrap)),
         ("median", "f64") => with_n!(kv_n(kv, "N"), N => finish(Median::<f64, N>::default(), wrap)),
         ("median", "fz") => with_n!(kv_n(kv, "N"), N => finish(Median::<Fz, N>::default(), wrap)),
